@@ -46,6 +46,12 @@ class ThreadRunner(BaseRunner):
 
     def _set_failure(self, failure: BaseException):
         if not self._payload_failure.done():
+            if type(failure) is StopIteration:
+                # a Future refuses StopIteration: report it as the cause of a
+                # RuntimeError, the way a coroutine raising it is reported (PEP 479)
+                error = RuntimeError("payload raised StopIteration")
+                error.__cause__ = failure
+                failure = error
             self._payload_failure.set_exception(failure)
 
     async def manage_payloads(self):
